@@ -516,7 +516,7 @@ func randomInit(w *world, r *rand.Rand, scheme string) cmd {
 }
 
 func main() {
-	mode := flag.String("mode", "world", "world|replay|record|heal")
+	mode := flag.String("mode", "world", "world|replay|record|heal|bulk")
 	target := flag.Int("target", 0, "fixed target index, or -k for the k-th random target of the seed")
 	scheme := flag.String("scheme", "path", "hash|path")
 	worldOut := flag.String("world", "world.json", "world file (TLC constants)")
@@ -524,6 +524,7 @@ func main() {
 	trace := flag.String("trace", "trace.ndjson", "output trace")
 	out := flag.String("out", "summary.json", "summary output")
 	n := flag.Int("n", 50, "number of random schedules (mode record)")
+	slots := flag.Int("slots", 30000, "storage slots of the contract (mode bulk)")
 	flag.Parse()
 	seed := int64(tl.EnvInt("VERIF_SEED", 1))
 	sum := tl.NewSummary("c12", *mode, seed)
@@ -554,6 +555,8 @@ func main() {
 		runRecord(w, *scheme, *trace, seed, *n, sum)
 	case "heal":
 		runHeal(w, *scheme, *trace, seed, *n, sum)
+	case "bulk":
+		runBulk(*scheme, *trace, seed, *slots, sum)
 	default:
 		tl.Fatal("bad mode")
 	}
